@@ -611,6 +611,7 @@ func c01(args []string) {
 			}
 		})
 	}
+	c01backgroundJobs(c)
 	c.Finish()
 }
 
@@ -626,4 +627,72 @@ func faultClass(label string) string {
 		return classOf(label[5:])
 	}
 	return label
+}
+
+// c01backgroundJobs: the command runs two tools side by side ("tool1 ... & tool2 ... ; wait"): both write to the
+// placeholders the library gave them, so both must write inside the task's temp directory; nothing may be at a final
+// path while they run, and after a failure nothing may be there at all.
+func c01backgroundJobs(c *chk.Ctx) {
+	run.Parallel(c.Pick(4, 12), func(i int) {
+		root := c.CaseDir()
+		defer c.Drop(root)
+		in, o1 := []spec.PortDecl{{Name: "in"}}, []spec.PortDecl{{Name: "out"}}
+		dir := []string{"", "bgout/", "bgout/deep/"}[i%3]
+		fail := i%4 == 3
+		s := &spec.Spec{Name: "background", MaxTasks: 2, Sources: map[string]string{"bg.txt": "bg\n"}}
+		second := spec.VcmdPath + " run id=A2 o=res:{o:res} sleep=30" // (a tool that needs no input file: a report, a timestamp, a download)
+		if fail {
+			second += " fail=exit-mid-write"
+		}
+		form := []string{"%s & %s ; wait", "%s &\n%s\nwait", "( %s ) & ( %s ) ; wait"}[i%3]
+		s.Procs = append(s.Procs, &spec.Proc{Name: "src", Kind: spec.KFileSource, Files: []string{"bg.txt"}},
+			&spec.Proc{Name: "A", Kind: spec.KCmd, Cmd: fmt.Sprintf(form, spec.VcmdPath+" run id=A o=out:{o:out} i=in:{i:in} sleep=30", second),
+				Outs: []*spec.Out{{Port: "out", Pattern: dir + "a.out"}, {Port: "res", Pattern: dir + "a.res"}}},
+			&spec.Proc{Name: "B", Kind: spec.KCmd, Cmd: spec.BuildCmd("B", in, o1, nil, nil, nil)},
+			&spec.Proc{Name: "C", Kind: spec.KCmd, Cmd: spec.BuildCmd("C", in, o1, nil, nil, nil)})
+		s.Conns = append(s.Conns, &spec.Conn{From: "src.out", To: "A.in"}, &spec.Conn{From: "A.out", To: "B.in"}, &spec.Conn{From: "A.res", To: "C.in"})
+		bh := vproto.Behaviours{"A": {"probe.out": dir + "a.out", "probe.res": dir + "a.res"}, "A2": {"probe.out": dir + "a.out", "probe.res": dir + "a.res"}}
+		desc := map[string]interface{}{"spec": s, "behav": bh, "second_tool_fails": fail}
+		res := execSpec(c, root, s, Cfg{Buf: 128, Procs: 2}, bh, false, 0)
+		if res.Hang != "" {
+			c.Inconclusive(res.Hang)
+			return
+		}
+		ti := mon.Index(res.Trace)
+		var ps []mon.Problem
+		for _, e := range ti.Probes {
+			if e.Exists {
+				ps = append(ps, mon.Problem{Sig: "final-path-visible-while-command-runs", Msg: fmt.Sprintf("while %s was running (%s) a file existed at the final path %s", e.ID, e.Phase, e.Path)})
+			}
+		}
+		snap := run.Snap(res.Wd)
+		nfinal := 0
+		for _, f := range []string{dir + "a.out", dir + "a.res"} {
+			if e, ok := snap[filepath.Clean(f)]; ok && e.Mode == "f" {
+				nfinal++
+			}
+		}
+		// the tools end with status 0 unless made to fail; "wait" hides the status of background jobs, so the task
+		// itself succeeds whenever both files are where the library looks for them
+		if res.Exit != 0 && nfinal > 0 {
+			ps = append(ps, mon.Problem{Sig: "final-path-without-successful-command", Msg: fmt.Sprintf("the workflow failed (exit %d) and %d output(s) of the two-tool task are at their final paths: %s", res.Exit, nfinal, tail(res.Output(), 300))})
+		}
+		if res.Exit == 0 && nfinal != 2 {
+			ps = append(ps, mon.Problem{Sig: "output-not-at-declared-path", Msg: fmt.Sprintf("the workflow succeeded and %d of the 2 outputs of the two-tool task are at their final paths", nfinal)})
+		}
+		for _, l := range snap.Files() {
+			if !strings.Contains(l, "_scipipe_tmp") && !strings.HasSuffix(l, ".audit.json") && l != "bg.txt" && !strings.HasPrefix(filepath.Base(l), "a.") && !strings.HasSuffix(l, ".out") {
+				ps = append(ps, mon.Problem{Sig: "unfinished-work-outside-tempdir", Msg: "unexpected file " + l})
+			}
+		}
+		if len(ps) > 0 {
+			for _, sig := range sigSet(ps) {
+				desc["problems"] = mon.Summarize(ps, 10)
+				c.Violation(sig+"|background-job", fmt.Sprintf("command of the form %q: %s", form, strings.Join(mon.Summarize(ps, 4), "\n  ")), desc)
+			}
+			return
+		}
+		c.Count("probe_events", len(ti.Probes))
+		c.Nontrivial(fmt.Sprintf("background|%d|%v", i%3, fail))
+	})
 }
